@@ -13,6 +13,8 @@ sys.path.insert(0, os.environ.get("VERIF_REPO", "/repo"))
 
 import hypothesis
 from hypothesis import given, settings, HealthCheck, Phase
+import hypothesis.internal.conjecture.engine as _eng
+_eng.BUFFER_SIZE = 64 * 1024
 
 
 def main():
